@@ -141,7 +141,35 @@ def build(dirpath):
         raise S.SliceError("vm.rs: `pub type AbraInt = i64;` not found")
     folds, fmeta = lifted_float_folds(a2v)
     harness = open(os.path.join(HERE, 'harness.rs')).read()
-    fh = ''.join(float_fold_harness(op, op in ('AddFloat', 'SubFloat', 'MulFloat')) for op in FLOAT_FOLDS)
+    fh = ''.join(float_fold_harness(op, op in ('AddFloat', 'SubFloat')) for op in FLOAT_FOLDS)
+    fh += float_fold_harness('MulFloat', True).replace('fn fold_MulFloat_sound()', 'fn fold_MulFloat_value()').replace('C05.fold.MulFloat.sound', 'C05.fold.MulFloat.value (thorough tier)')
+    # ---- DivFloatImm vs DivFloat: error conditions cut from the two VM arms
+    var = vm_arm_facts('DivFloat')
+    imm = vm_arm_facts('DivFloatImm')
+    CONST = 'self.shared.float_constants[imm as usize]'
+    norm = lambda e: re.sub(r'\s+', ' ', e.replace(CONST, 'b')).strip()
+    imm_arm = S.step_arm('DivFloatImm')['body']
+    # in the immediate arm `b` (if bound at all) must be the constant-table operand
+    bm = re.findall(r'let b = ([^;]+);', imm_arm)
+    if bm and norm(bm[0]) != 'b':
+        raise S.SliceError("DivFloatImm arm: `b` is not the constant-table operand: %r" % bm)
+    c_var = ' || '.join('(%s)' % c for c, _ in var['conds']) or 'false'
+    c_imm = ' || '.join('(%s)' % norm(c) for c, _ in imm['conds']) or 'false'
+    fh += '''/// C05.vm.DivFloatImm.same_error_as_DivFloat: conditions cut from the two VM arms
+fn vm_err_DivFloat_var(a: pf64, b: pf64) -> bool { %s }
+fn vm_err_DivFloat_imm(a: pf64, b: pf64) -> bool { %s }
+#[kani::proof]
+fn divfloatimm_same_error() {
+    let a: pf64 = kani::any();
+    let b: pf64 = kani::any();
+    assert!(vm_err_DivFloat_var(a, b) == vm_err_DivFloat_imm(a, b), "literal divisor and variable divisor raise a runtime error for the same operands");
+    kani::cover!(vm_err_DivFloat_var(a, b), "error case reachable");
+    kani::cover!(!vm_err_DivFloat_var(a, b), "non-error case reachable");
+}
+''' % (c_var, c_imm)
+    divf = dict(var_conds=[c for c, _ in var['conds']], imm_conds=[norm(c) for c, _ in imm['conds']],
+                var_kinds=[k for _, k in var['conds']], imm_kinds=[k for _, k in imm['conds']],
+                var_expr=norm(var['value']), imm_expr=norm(imm['value']), sha=S.sha(var['raw'] + imm['raw']))
     mod = ("// type substitution, see tok.rs\nuse crate::tok::{String, f64};\nuse crate::assembly::{Instr, Line, Reg, AbraInt};\n#[allow(non_camel_case_types)]\ntype pf64 = core::primitive::f64;\n"
            + folds + "\n#[cfg(kani)]\nmod u9h {\nuse super::*;\n" + harness + fh + "}\n")
     os.makedirs(os.path.join(dirpath, 'src'), exist_ok=True)
@@ -150,4 +178,4 @@ def build(dirpath):
                        ('src/folds.rs', mod), ('src/tok.rs', open(os.path.join(HERE, 'tok.rs')).read())):
         with open(os.path.join(dirpath, name), 'w') as f:
             f.write(text)
-    return dict(fold_meta=fmeta, sha=dict(enum=S.sha(enum), reg_impl=S.sha(S.item(ASM, r'impl Reg \{'))))
+    return dict(fold_meta=fmeta, divf=divf, sha=dict(enum=S.sha(enum), reg_impl=S.sha(S.item(ASM, r'impl Reg \{'))))
